@@ -171,7 +171,21 @@ type WorkerResult struct {
 	SiteCounts   map[string]int64 `json:"site_counts"`
 }
 
+// openMatchers holds the matcher names of the open findings of the property
+// being run (set when a context is created; one property per process).
+var openMatchers = map[string]bool{}
+
+// MatcherOpen reports whether an open finding of the current property names
+// this matcher. Checks that build deviation models use it so that the model of
+// a defect that has been repaired no longer explains anything.
+func MatcherOpen(name string) bool { return openMatchers[name] }
+
 func newCtx(prop, tier string, seed uint64, findings []Finding) *Ctx {
+	for _, f := range findings {
+		if f.Property == prop && f.Status == "open" && f.Matcher != "" {
+			openMatchers[f.Matcher] = true
+		}
+	}
 	return &Ctx{Prop: prop, Tier: tier, Seed: seed, findings: findings,
 		res: &WorkerResult{Features: map[string]int64{}, FindingHits: map[string]int64{}, Notes: map[string]int64{}, SiteCounts: map[string]int64{}},
 		nt:  map[uint64]struct{}{}, srng: gen.New(seed, prop+"/samples", 0)}
